@@ -50,7 +50,7 @@ class C19(SCheck):
     prop = "C19"
     level = "exploration"
     default_seed = 19019
-    N = {"quick": 300, "thorough": 8000}
+    N = {"quick": 500, "thorough": 8000}
     K = {"quick": 1, "thorough": 1}
     needs_probe = True
     technique = "deterministic simulation of an API probe calling libfs under emulated FIEMAP paging variants and native SEEK_DATA/SEEK_HOLE; data map read back from the file as oracle; one injected errno at sampled lseek/FIEMAP calls; seeded sampling for merge_extents"
